@@ -43,8 +43,12 @@ class Chain:
         self.nb = repo.mod(NB)
         self.red = self.core.func("GroupBy._apply_gb_reduction")
         self.across = self.core.func("GroupBy._apply_gb_func_across_chunked_group_keys")
+        from .canon import canon_func
         self.wrap = self.nb.func("_group_func_wrap")
         self.single = self.nb.func("_apply_group_method_single_chunk")
+        # the same two functions with their locals renamed to inferred roles (what the evaluator is run on)
+        self.wrap_c = canon_func(repo, NB, "_group_func_wrap")
+        self.single_c = canon_func(repo, NB, "_apply_group_method_single_chunk")
         self.chunkargs = self.nb.func("_chunk_groupby_args")
         self.combine = self.nb.func("combine_chunk_results_for_factorized_key")
         self.gbr = self.nb.func("_group_by_reduce")
@@ -75,11 +79,25 @@ class Chain:
     def group_func(self, eff: str) -> Tuple[Func, Tuple[Func, ...], dict]:
         ev = Evaluator(self.repo)
         env = ev.run(self.across, {"func_name": cs(eff)})
-        f = env.get("func")
+        # the locals are found by what they hold, not by their names: the kernel is the result of
+        # getattr(numba_funcs, ...), the merge reducer is what reduce_array_pair receives as reducer=
+        func_var = reducer_var = None
+        for n in walk_no_nested(self.across.node):
+            if isinstance(n, ast.Assign) and len(n.targets) == 1 and isinstance(n.targets[0], ast.Name) \
+                    and isinstance(n.value, ast.Call) and norm(n.value.func) == "getattr" and n.value.args \
+                    and norm(n.value.args[0]) == "numba_funcs":
+                func_var = func_var or n.targets[0].id
+            if isinstance(n, ast.Call) and norm(n.func).endswith("reduce_array_pair"):
+                rk = next((k.value for k in n.keywords if k.arg == "reducer"), n.args[2] if len(n.args) > 2 else None)
+                if isinstance(rk, ast.Name):
+                    reducer_var = rk.id
+        if func_var is None or reducer_var is None:
+            raise AnalysisError("D1: kernel lookup / merge reducer of the chunk dispatcher not found")
+        f = env.get(func_var)
         if not isinstance(f, FuncRef) or len(f.funcs) != 1:
             # find the getattr assignment value anywhere in the calls' envs
             raise AnalysisError(f"D1: getattr(numba_funcs, f'group_{{func_name}}') does not resolve for {eff!r} (got {f!r})")
-        reducer = env.get("reducer")
+        reducer = env.get(reducer_var)
         if not isinstance(reducer, FuncRef):
             raise AnalysisError(f"D2: merge reducer for {eff!r} in the chunked path does not resolve (got {reducer!r})")
         return f.funcs[0], reducer.funcs, env
@@ -98,7 +116,7 @@ class Chain:
     # hop E: inside _group_func_wrap
     def wrap_facts(self, name: str) -> dict:
         ev = Evaluator(self.repo)
-        env = ev.run(self.wrap, {"reduce_func_name": cs(name)})
+        env = ev.run(self.wrap_c, {"reduce_func_name": cs(name)})
         out: dict = {"ev": ev}
         direct = calls_to(ev, self.single)
         via = calls_to(ev, self.chunkargs)
@@ -137,7 +155,7 @@ class Chain:
     # hop F: reducer name -> ScalarFuncs member + accumulator operation
     def single_chunk(self, name: str) -> Tuple[Tuple[Func, ...], object, CallRecord]:
         ev = Evaluator(self.repo)
-        ev.run(self.single, {"reduce_func_name": cs(name)})
+        ev.run(self.single_c, {"reduce_func_name": cs(name)})
         recs = calls_to(ev, self.gbr)
         if len(recs) != 1:
             raise AnalysisError("D1: _apply_group_method_single_chunk no longer calls _group_by_reduce exactly once")
@@ -401,11 +419,11 @@ def _single_path_result(ch: Chain, name: str) -> Optional[str]:
     """which element of `result, count = worker(...)` reaches `result` at the end of the n_threads == 1 arm"""
     ev = Evaluator(ch.repo)
     # force the single-chunk arm: n_threads == 1 and one value chunk
-    for n in walk_no_nested(ch.wrap.node):
+    for n in walk_no_nested(ch.wrap_c.node):
         if isinstance(n, ast.If) and any(
                 isinstance(r.callee, FuncRef) and ch.single in r.callee.funcs for r in _calls_in(ch, n.body)):
             ev2 = Evaluator(ch.repo)
-            ev2.func = ch.wrap
+            ev2.func = ch.wrap_c
             env = {"reduce_func_name": cs(name), "counting": cs("count" in name)}
             out = ev2.exec_block(n.body, env)
             if out is None:
@@ -418,7 +436,7 @@ def _single_path_result(ch: Chain, name: str) -> Optional[str]:
 
 def _calls_in(ch: Chain, stmts) -> List[CallRecord]:
     ev = Evaluator(ch.repo)
-    ev.func = ch.wrap
+    ev.func = ch.wrap_c
     ev.exec_block(stmts, {"reduce_func_name": TOP})
     return ev.calls
 
@@ -531,7 +549,13 @@ def _d3_orientation(nb, res: RuleResult):
                 if pol and isinstance(cmp, ast.Compare) and len(cmp.ops) == 1:
                     found += 1
                     opn = type(cmp.ops[0]).__name__
-                    left_is_new = isinstance(cmp.left, ast.Name) and cmp.left.id in ("val", "v")
+                    # the "new" value is the element the row loop iterates over (a for-target), the other side is state
+                    loop_targets = {x.id for l in walk_no_nested(fn.node) if isinstance(l, ast.For)
+                                    for x in ast.walk(l.target) if isinstance(x, ast.Name)}
+                    left_is_new = isinstance(cmp.left, ast.Name) and cmp.left.id in loop_targets
+                    right_is_new = isinstance(cmp.comparators[0], ast.Name) and cmp.comparators[0].id in loop_targets
+                    if left_is_new == right_is_new:
+                        raise AnalysisError(f"D3: cannot tell the new value from the running extremum in {norm(cmp)} ({fn.qualname})")
                     good = (pol == "max" and opn in ("GtE", "Gt")) or (pol == "min" and opn in ("LtE", "Lt"))
                     if not left_is_new:
                         good = (pol == "max" and opn in ("LtE", "Lt")) or (pol == "min" and opn in ("GtE", "Gt"))
@@ -550,9 +574,13 @@ def _d3_orientation(nb, res: RuleResult):
             seen = True
             a = n.body[0] if n.body else None
             b = n.orelse[0] if n.orelse else None
-            ok_shift = isinstance(a, ast.Assign) and isinstance(a.value, ast.Subscript) and "group_buffers" in norm(a.value)
+            loop_targets = {x.id for l in walk_no_nested(f.node) if isinstance(l, ast.For)
+                            for x in ast.walk(l.target) if isinstance(x, ast.Name)}
+            ok_shift = isinstance(a, ast.Assign) and isinstance(a.value, ast.Subscript) and isinstance(a.value.value, ast.Name) \
+                and a.value.value.id not in f.named_params
             ok_diff = isinstance(b, ast.Assign) and isinstance(b.value, ast.BinOp) and isinstance(b.value.op, ast.Sub) \
-                and isinstance(b.value.left, ast.Name) and b.value.left.id == "val" and "group_buffers" in norm(b.value.right)
+                and isinstance(b.value.left, ast.Name) and b.value.left.id in loop_targets \
+                and ok_shift and norm(b.value.right) == norm(a.value)
             if ok_shift and ok_diff:
                 res.ok(f, n, "want_shift ? buffer value : val - buffer value", "shift returns the stored value, diff the difference to it")
             else:
@@ -569,8 +597,10 @@ def _d3_orientation(nb, res: RuleResult):
             a = n.body[0]
             b = n.orelse[0] if n.orelse else None
             ok_mean = isinstance(a, ast.Assign) and isinstance(a.value, ast.BinOp) and isinstance(a.value.op, ast.Div) \
-                and "group_sums" in norm(a.value.left) and "group_non_null" in norm(a.value.right)
-            ok_sum = isinstance(b, ast.Assign) and isinstance(b.value, ast.Subscript) and "group_sums" in norm(b.value)
+                and isinstance(a.value.left, ast.Subscript) and isinstance(a.value.right, ast.Subscript) \
+                and norm(a.value.left.value) != norm(a.value.right.value)
+            ok_sum = ok_mean and isinstance(b, ast.Assign) and isinstance(b.value, ast.Subscript) \
+                and norm(b.value) == norm(a.value.left)
             if ok_mean and ok_sum:
                 res.ok(f, n, "want_mean ? sum / non-null count : sum", "")
             else:
@@ -675,11 +705,28 @@ def rule_D5(repo: Repo) -> RuleResult:
     res = RuleResult("D5", "nanops: reducer name -> (initial value, chunk-combine reducer); public names -> reducer names")
     nan = repo.mod("nanops")
     r1 = nan.func("reduce_1d")
+    # locals by role: the keyword dictionary is what _nb_reduce receives as **..., the combine reducer is the first
+    # argument of the recursive call
+    kw_var = cr_var = None
+    for n in walk_no_nested(r1.node):
+        if isinstance(n, ast.Call) and norm(n.func) == "_nb_reduce":
+            for k in n.keywords:
+                if k.arg is None and isinstance(k.value, ast.Name):
+                    kw_var = k.value.id
+        if isinstance(n, ast.Call) and norm(n.func) == "reduce_1d" and n.args and isinstance(n.args[0], ast.Name):
+            cr_var = n.args[0].id
+    for n in ast.walk(r1.node):          # the worker may be a lambda
+        if isinstance(n, ast.Call) and norm(n.func) == "_nb_reduce":
+            for k in n.keywords:
+                if k.arg is None and isinstance(k.value, ast.Name):
+                    kw_var = kw_var or k.value.id
+    if kw_var is None or cr_var is None:
+        raise AnalysisError("D5: keyword dictionary of _nb_reduce / combine reducer of reduce_1d not found")
     for name, (init, combine) in specs.REDUCE_1D_STAGE.items():
         ev = Evaluator(repo)
         env = ev.run(r1, {"reduce_func_name": cs(name)})
-        kw = env.get("kwargs")
-        cr = env.get("chunk_reduction")
+        kw = env.get(kw_var)
+        cr = env.get(cr_var)
         if not isinstance(kw, DictVal):
             raise AnalysisError("D5: reduce_1d kwargs is no longer a dict literal / dict(...)")
         iv = kw.entries.get("initial_value")
@@ -830,7 +877,8 @@ def rule_D7(repo: Repo) -> RuleResult:
 def rule_D8(repo: Repo) -> RuleResult:
     res = RuleResult("D8", "mask-kind dispatch shape (slice / boolean / positions)")
     nb = repo.mod(NB)
-    w = nb.func("_group_func_wrap")
+    from .canon import canon_func
+    w = canon_func(repo, NB, "_group_func_wrap")
     # slice: applied to keys and values, then cleared
     found = False
     for n in walk_no_nested(w.node):
@@ -845,7 +893,7 @@ def rule_D8(repo: Repo) -> RuleResult:
                         "a slice mask must be applied to both the keys and the values and then cleared")
     if not found:
         raise AnalysisError("D8: slice branch of _group_func_wrap not found")
-    s = nb.func("_apply_group_method_single_chunk")
+    s = canon_func(repo, NB, "_apply_group_method_single_chunk")
     ok_len = ok_nonzero = ok_else = False
     for n in walk_no_nested(s.node):
         if isinstance(n, ast.If) and 'mask.dtype.kind == "b"' in norm(n.test).replace("'", '"'):
@@ -886,8 +934,9 @@ def rule_D9(repo: Repo) -> RuleResult:
     res = RuleResult("D9", "a positional mask reaches the kernels in the order given, split into contiguous blocks")
     nb = repo.mod(NB)
     n = 0
+    from .canon import canon_func
     for fname in ("_chunk_groupby_args", "_group_func_wrap", "_apply_group_method_single_chunk"):
-        f = nb.func(fname)
+        f = canon_func(repo, NB, fname)
         for st in walk_no_nested(f.node):
             if not isinstance(st, ast.Assign):
                 continue
